@@ -239,7 +239,7 @@ type lexClaim struct {
 }
 type uniRec struct {
 	S []int    `json:"s"`
-	F int      `json:"f"` // 0 = free sequence, >0 = filler in frame F (joined form only)
+	F int      `json:"f"` // 0 = free sequence, >0 = filler in frame F, -1 = nested compound frames around a leaf statement (joined form only)
 	A lexClaim `json:"a"` // joined with one space
 	B lexClaim `json:"b"` // joined with nothing
 }
@@ -570,7 +570,7 @@ func (s *seqSet) testAndSet(k string) bool {
 	return old
 }
 
-var framedTotal atomic.Int64
+var framedTotal, nestedTotal atomic.Int64
 
 func render(alpha []alphaItem, seq []int, spaced bool) (string, bool) {
 	var b bytes.Buffer
@@ -613,6 +613,8 @@ func runUniverse(env *common.Env, rep *common.Report, c *collector, p *pool, alp
 		nseq++
 		if r.F > 0 {
 			framedTotal.Add(1)
+		} else if r.F < 0 {
+			nestedTotal.Add(1)
 		}
 		for _, spaced := range []bool{true, false} {
 			if !spaced && len(r.S) == 1 {
@@ -846,7 +848,8 @@ func main() {
 	rep.Distinct = int64(len(c.distinct))
 	rep.Rule = "cases = source texts: every sequence of 1.." + strconv.Itoa(env.Pick(2, 3)) + " items of the " + strconv.Itoa(len(alpha)) +
 		"-item alphabet (spec/C11/alphabet.ndjson) joined with and without a space, every filler of 0.." + strconv.Itoa(env.Pick(1, 2)) +
-		" items in each grammatical frame of PipelineUniverse.tla (TLC, exhaustive), seeded TLC draws of 3..8 free items and 2..4 filler items, " +
+		" items in each grammatical frame of PipelineUniverse.tla, every leaf statement under every nesting of 1.." + strconv.Itoa(env.Pick(2, 3)) +
+		" compound frames (TLC, exhaustive), seeded TLC draws of 3..8 free items and 2..4 filler items, " +
 		"and seeded byte/token mutations of every .py file of the repository; each compiled in exec, eval and single mode. " +
 		"distinct_nontrivial counts distinct source texts (SHA-1); evaluations counts py.Compile calls plus parser.LexString comparisons"
 	rep.Exhaustive = false
@@ -855,6 +858,7 @@ func main() {
 	rep.Extra["sequences_exhaustive"] = nExh
 	rep.Extra["sequences_simulated"] = nSim
 	rep.Extra["sequences_in_frames"] = framedTotal.Load()
+	rep.Extra["sequences_nested_compound_frames"] = nestedTotal.Load()
 	rep.Extra["repository_files"] = files
 	rep.Extra["mutants"] = mutants
 	rep.Extra["compiles"] = c.compiles
@@ -869,6 +873,9 @@ func main() {
 		"the explored universe is the one defined by spec/C11/PipelineUniverse.tla plus seeded mutations of the repository's files; totality over all byte sequences is not proved",
 		"the specification contributes the universe, the lexical classification (PyLex) and the outcome monitor (Pipeline); it does not decide which texts must compile",
 		"a compile that exceeds the 10 s watchdog is re-run alone with 30 s before it counts as a hang",
+	}
+	if nestedTotal.Load() == 0 || framedTotal.Load() == 0 {
+		common.Inconclusive("property=C11 vacuous run: framed=%d nested=%d sequences", framedTotal.Load(), nestedTotal.Load())
 	}
 	for _, k := range []string{"err", "eof", "toks"} {
 		if c.lexClass[k] == 0 {
